@@ -6,6 +6,8 @@ clone_eq!(PlutusWitness, PlutusData, CostModel);
 pub struct Language(pub u8);
 impl Clone for Language { #[verifier::external_body] fn clone(&self) -> (r: Language) ensures r == *self { unimplemented!() } }
 
+/// first occurrences of a sequence, in order (what the deduplicated_* functions keep)
+pub uninterp spec fn dedup_items<T>(s: Seq<T>) -> Seq<T>;
 // ---- collections placed in the witness set: element sequence views; de-duplication keeps first occurrences
 macro_rules! seq_coll { ($n:ident, $e:ty) => { verus!{
     #[verifier::external_body] pub struct $n { _p: core::marker::PhantomData<u8> }
@@ -14,7 +16,7 @@ macro_rules! seq_coll { ($n:ident, $e:ty) => { verus!{
         pub uninterp spec fn items(&self) -> Seq<$e>;
         pub uninterp spec fn dedup(&self) -> $n;        // deduplicated_clone(): same elements, first occurrences, no duplicates (C16; encoders not here)
         #[verifier::external_body] pub fn len(&self) -> (r: usize) ensures r == self.items().len() { unimplemented!() }
-        #[verifier::external_body] pub fn deduplicated_clone(&self) -> (r: $n) ensures r == self.dedup() { unimplemented!() }
+        #[verifier::external_body] pub fn deduplicated_clone(&self) -> (r: $n) ensures r == self.dedup(), r.items() == dedup_items(self.items()) { unimplemented!() }
     }
 } } }
 opaque_types!(NativeScript, PlutusScript, Redeemer);
@@ -50,3 +52,6 @@ pub uninterp spec fn script_data_hash_of(r: Redeemers, c: Costmdls, d: Option<Pl
     ensures r == script_data_hash_of(*redeemers, *cost_models, datums) { unimplemented!() }
 pub mod fees { pub use super::LinearFee; }
 pub enum CoinSelectionStrategyCIP2 { LargestFirst, RandomImprove, LargestFirstMultiAsset, RandomImproveMultiAsset }
+
+/// BTreeSet::append as documented by std: moves all elements of `b` into `a` (R-setappend)
+#[verifier::external_body] pub fn set_append<T: Ord>(a: &mut BTreeSet<T>, b: BTreeSet<T>) ensures final(a)@ == old(a)@ + b@ { unimplemented!() }
